@@ -182,52 +182,42 @@ Definition up_content (F : format) (now : bytes) (p : plan) : bytes :=
 (** ** readers *)
 
 (** bufio.Scanner with ScanLines: split at "\n", drop one trailing "\r" per line, a final line
-    without newline is a line if non-empty.  bufio.MaxScanTokenSize = 64 KiB: when 65536 bytes
-    have been read without a newline the scanner fails with ErrTooLong, [sc.Scan()] returns false
-    and the loops of GooseFile/DBMateFile.StmtDecls simply end ([sc.Err()] is never checked): the
-    lines before the long one are all the reader sees.  [cnt] = bytes of the current line. *)
+    without newline is a line if non-empty.  Since fix C07-sqltool-scanner-buffer the readers size
+    the scanner's buffer to the file ([sc.Buffer(nil, len+1)]) and report [sc.Err()]: no line is
+    too long any more, the split is total. *)
 Definition drop_cr (l : bytes) : bytes :=
   match rev l with 13%N :: r => rev r | _ => l end.
-Definition MAX_LINE : N := 65535.
-Fixpoint lines_acc (s : bytes) (cur : bytes) (cnt : N) : list bytes :=
-  match s with
-  | [] => match cur with [] => [] | _ => [drop_cr (rev cur)] end
-  | b :: t =>
-    if N.eqb b 10 then drop_cr (rev cur) :: lines_acc t [] 0
-    else if (MAX_LINE <=? cnt)%N then []
-    else lines_acc t (b :: cur) (cnt + 1)
-  end.
-Definition lines (s : bytes) : list bytes := lines_acc s [] 0.
-
-(** the same split without the token limit (specification vocabulary of the theorems: the
-    conditions [dbmate_ok] / [goose_change_ok] are stated over it, together with [short]) *)
 Fixpoint ulines_acc (s : bytes) (cur : bytes) : list bytes :=
   match s with
   | [] => match cur with [] => [] | _ => [drop_cr (rev cur)] end
   | b :: t => if N.eqb b 10 then drop_cr (rev cur) :: ulines_acc t [] else ulines_acc t (b :: cur)
   end.
 Definition ulines (s : bytes) : list bytes := ulines_acc s [].
-(** every line fits bufio.Scanner's buffer *)
-Definition short (s : bytes) : bool :=
-  forallb (fun l => (N.of_nat (length l) <=? MAX_LINE)%N) (ulines s).
+Definition lines (s : bytes) : list bytes := ulines s.
 
 (** strings.Contains *)
 Definition contains (s p : bytes) : bool := match index_of s p with Some _ => true | None => false end.
 
-(** reGoosePragma = QuoteMeta("-- +goose") + " Up|Down|StatementBegin|StatementEnd": the
-    alternation binds weakest, so a line matches if it contains "-- +goose Up" or "Down" or
-    "StatementBegin" or "StatementEnd" ANYWHERE. *)
+(** reGoosePragma = "^" + QuoteMeta("-- +goose") + " (?:Up|Down|StatementBegin|StatementEnd)" and
+    reDBMatePragma = "^-- migrate:(?:up|down)" (fix C07-pragma-regexp-grouping: grouped and anchored;
+    before the fix the alternation was ungrouped and every line containing Down / StatementBegin /
+    StatementEnd / down anywhere matched). *)
 Definition S_Up : bytes := [85;112]%N.
 Definition S_Down : bytes := [68;111;119;110]%N.
 Definition S_StatementBegin : bytes := [83;116;97;116;101;109;101;110;116;66;101;103;105;110]%N.
 Definition S_StatementEnd : bytes := [83;116;97;116;101;109;101;110;116;69;110;100]%N.
 Definition re_goose_pragma (line : bytes) : bool :=
-  contains line (S_GOOSE ++ [32%N] ++ S_Up) || contains line S_Down
-  || contains line S_StatementBegin || contains line S_StatementEnd.
-(** reDBMatePragma = "-- migrate:up|down": contains "-- migrate:up" or "down" anywhere. *)
+  has_prefix line (S_GOOSE ++ [32%N] ++ S_Up) || has_prefix line (S_GOOSE ++ [32%N] ++ S_Down)
+  || has_prefix line (S_GOOSE ++ [32%N] ++ S_StatementBegin) || has_prefix line (S_GOOSE ++ [32%N] ++ S_StatementEnd).
 Definition S_down : bytes := [100;111;119;110]%N.
 Definition S_up : bytes := [117;112]%N.
 Definition re_dbmate_pragma (line : bytes) : bool :=
+  has_prefix line (S_DBMATE ++ S_up) || has_prefix line (S_DBMATE ++ S_down).
+(** the ungrouped patterns of the tree before the fix (kept for the record of the defect) *)
+Definition re_goose_pragma_ungrouped (line : bytes) : bool :=
+  contains line (S_GOOSE ++ [32%N] ++ S_Up) || contains line S_Down
+  || contains line S_StatementBegin || contains line S_StatementEnd.
+Definition re_dbmate_pragma_ungrouped (line : bytes) : bool :=
   contains line (S_DBMATE ++ S_up) || contains line S_down.
 
 (** "-- ATLAS_DELIM_END" *)
@@ -280,14 +270,33 @@ Definition goose_text (content : bytes) : option bytes :=
   | GUnexpectedPragma => None
   end.
 
-(** DBMateFile.StmtDecls *)
+(** strings.Fields(s)[0]: the first white-space separated field ([] when there is none) *)
+Fixpoint take_field (s : bytes) : bytes :=
+  match s with
+  | [] => []
+  | a :: t =>
+    if sp1 a then [] else
+    match t with
+    | b :: t2 =>
+      if sp2 a b then [] else
+      match t2 with
+      | c :: _ => if sp3 a b c then [] else a :: take_field t
+      | [] => a :: take_field t
+      end
+    | [] => [a]
+    end
+  end.
+Definition first_field (s : bytes) : bytes := take_field (trim_left_space s).
+
+(** DBMateFile.StmtDecls (fix C07-dbmate-directive-options: the direction is the first field after
+    "-- migrate:", options such as transaction:false may follow) *)
 Fixpoint dbmate_loop (ls : list bytes) (isup : bool) (acc : list bytes) : list bytes :=
   match ls with
   | [] => rev acc
   | line :: rest =>
     let pr :=
       if has_prefix line S_DBMATE then
-        let arg := trim_space (trim_prefix line S_DBMATE) in
+        let arg := first_field (trim_prefix line S_DBMATE) in
         if bytes_eqb arg S_up then Some true
         else if bytes_eqb arg S_down then None
         else Some isup
